@@ -10,6 +10,7 @@
 //!   add <peer> <key> <naddrs> <conn>       `add_known_peer` (conn: n | c | k | x)
 //!   connected <peer> <key> <0|1>           `on_connection_established` (1 = dialer endpoint)
 //!   dialfail <peer> <key> <naddrs>         `on_dial_failure`
+//!   dialfailall <peer> <key>               `on_dial_failure` naming every address known for the peer
 //!   disconnected <peer> <key>              what `Kademlia::disconnect_peer` does with the table
 //!   entry <peer> <key>                     bare `entry`
 //!   closest <key> <limit>                  `closest`
@@ -167,6 +168,25 @@ impl VerifBox for TableBox {
                     .into_iter()
                     .map(|a| a.with(multiaddr::Protocol::Udp(9)))
                     .collect();
+                table.on_dial_failure(key.clone(), &addrs);
+                Self::show_selected(table, &key)
+            }
+            (["dialfailall", p, key], Some(table)) => {
+                // a dial failure naming every address currently known for the peer (no new address)
+                let (Some(p), Some(bytes)) = (num(p), key_bytes(key)) else {
+                    return "bad-op".into();
+                };
+                let (_, key) = Self::key(p, bytes);
+                // read without `entry()`, which would push a placeholder for an unknown key
+                let addrs: Vec<Multiaddr> = match table.local_key.distance(&key).ilog2() {
+                    None => Vec::new(),
+                    Some(i) => table.buckets[i as usize]
+                        .verif_nodes()
+                        .iter()
+                        .find(|n| n.key == key)
+                        .map(|n| n.address_store.addresses(usize::MAX))
+                        .unwrap_or_default(),
+                };
                 table.on_dial_failure(key.clone(), &addrs);
                 Self::show_selected(table, &key)
             }
